@@ -7,6 +7,8 @@ from ..rat import rat, frac, round_once_eq, tol_eq
 from ..symtrace import Sym
 from .. import gen_geom
 from .. import c06_route
+from .. import history
+from .. import c06_paths as P
 
 PROPERTY = "C06"
 LEAN_MODULE = "Proofs.C06"
@@ -27,7 +29,10 @@ THEOREMS = [_T + n for n in [
     "C06_boundsExact_satisfiable",
     # follow-up 2: the buffered time extent from the coordinates, the band of the time IoU, the pipeline corollary
     "timeIoU_band", "C06_extent_band", "C06_extent_band_exact", "C06_extent_exact", "C06_buffered_time_band",
-    "C06_buffered_time_exact", "C06_pipeline_extent_within", "C06_pipeline_extent_ideal", "C06_pipeline_affinity_band"]]
+    "C06_buffered_time_exact", "C06_pipeline_extent_within", "C06_pipeline_extent_ideal", "C06_pipeline_affinity_band",
+    # follow-up 3: histories (calls in one process on shared / changed objects, caches) and the binding of arguments
+    "C06_history", "C06_history_keyed_cache", "C06_history_full_key_cache", "C06_history_partial_key_cache_not_free",
+    "C06_history_memo_dropped", "C06_history_memo_kept_not_free", "C06_bind_wellformed", "C06_pinned_sig_wellformed"]]
 LEVEL_TEXT = ("Lean theorems over the model of compute_affinity (everything GEOS computes is a parameter): the IoU and "
               "time-IoU formulas (range, symmetry, self, zero, shift), rectangle closed forms, and for the dispatcher "
               "range under `Sane`, symmetry / self = 1 / time-disjoint = 0 under `Sound`, the box closed form under "
@@ -661,6 +666,217 @@ OPS = {
 }
 
 
+# ---------------------------------------------------------------- follow-up 3: histories, construction paths, call styles
+# (HISTORIES.md)  Every step of a history and every way of building / passing the arguments is judged by the same
+# monitor and the same model as a plain pair: the model is pure, so the content the objects carry at that step and the
+# call the arguments bind to (Lean: `bindCall` on the signature table, theorem C06_bind_wellformed) fix the answer.
+_BASE = Op("affinity", None, to_model=lambda inp: _to_model(inp), compare=lambda inp, io, mo: _compare_pair(inp, io, mo),
+           holds=lambda ctx, inp, io: _holds_pair(ctx, inp, io), nontrivial=lambda inp, out: _nontrivial(inp, out),
+           mode="tolerance", model_op="affinity_pair")
+
+
+def _h_build(inp):
+    return {"g1": P.build(inp["g1"], inp.get("build", "validate")), "g2": P.build(inp["g2"], inp.get("build", "validate")),
+            "tb": _f(inp["tb"]), "fb": _f(inp["fb"])}
+
+
+def _h_call(args):
+    from soundevent.evaluation import compute_affinity
+    a12 = compute_affinity(args["g1"], args["g2"], time_buffer=args["tb"], freq_buffer=args["fb"])
+    a21 = compute_affinity(args["g2"], args["g1"], time_buffer=args["tb"], freq_buffer=args["fb"])
+    return [a12, a21]
+
+
+def _h_canon(inp, args, res):
+    return {"val": [rat(float(res[0])), rat(float(res[1]))]}
+
+
+def _h_snapshot(args):
+    return [gen_geom.from_data(args["g1"]), gen_geom.from_data(args["g2"]), repr(args["tb"]), repr(args["fb"])]
+
+
+def _same_content(obj, gj):
+    return obj is not None and obj.type == gj["type"] and \
+        gen_geom.from_data(obj)["coordinates"] == gen_geom._enc_f(gen_geom.coords_float(gj))
+
+
+def _h_modify(args, inp, how):
+    """the live geometry objects of the previous step turned into this step's geometries: coordinates re-assigned,
+    model_copy(update=...) shallow / deep, copy.copy / deepcopy + assignment, the very same objects with other
+    buffers, the same objects in the other order; with `prime+` the old objects are first used in compute_bounds /
+    geometry_to_shapely / buffer_geometry.  Nothing remembered from the earlier use may survive."""
+    primed = how.startswith("prime+")
+    how2 = how[len("prime+"):] if primed else how
+    olds = [args["g1"], args["g2"]]
+    if primed:
+        for o in olds:
+            P.prime(o)
+    if how2 == "swap":
+        olds = olds[::-1]
+    new = []
+    for o, key in zip(olds, ("g1", "g2")):
+        gj = inp[key]
+        if how2 in ("same", "swap"):
+            n = o if _same_content(o, gj) else None
+        else:
+            n = P.change(o, gj, how2)
+        new.append(n if n is not None else P.build(gj))
+    return {"g1": new[0], "g2": new[1], "tb": _f(inp["tb"]), "fb": _f(inp["fb"])}
+
+
+H_REUSE = tuple(P.REUSE) + ("prime+assign", "prime+copy_update", "prime+deep_copy_update", "prime+copy_assign")
+
+
+def _shift_geom_f(gj, d):
+    """time shift whose result is again a binary64 number (the identity on the dyadic grids)"""
+    g = _shift_geom(gj, d)
+
+    def fl(c):
+        if isinstance(c, list):
+            return [fl(x) for x in c]
+        return rat(float(frac(c)))
+    return {"type": g["type"], "coordinates": fl(g["coordinates"])}
+
+
+def _min_time(gj):
+    return _raw_time_bounds(gj)[0]
+
+
+def _h_variants(x, rng):
+    """neighbours of a pair: the same geometries with other buffers, one or both geometries moved in time (far away:
+    disjoint; a little: another overlap), the pair swapped, a geometry against itself"""
+    low = x["g1"]["type"] in LOW_DIM or x["g2"]["type"] in LOW_DIM
+    pool = [("1/4", "1/2"), ("1/2", "1"), ("2", "1"), ("1/8", "4"), ("4", "1/4")] + ([] if low else [("0", "0")])
+    out = [{**x, "tb": tb, "fb": fb} for tb, fb in pool if (tb, fb) != (x["tb"], x["fb"])]
+    for d in ("10", "1/2", "-1/4", "3", "1/8"):
+        if _min_time(x["g2"]) + Fraction(d) >= 0:
+            out.append({**x, "g2": _shift_geom_f(x["g2"], d)})
+        if min(_min_time(x["g1"]), _min_time(x["g2"])) + Fraction(d) >= 0:
+            out.append({**x, "g1": _shift_geom_f(x["g1"], d), "g2": _shift_geom_f(x["g2"], d)})
+        if _min_time(x["g1"]) + Fraction(d) >= 0:
+            out.append({**x, "g1": _shift_geom_f(x["g1"], d)})
+    out.append({**x, "g1": x["g2"], "g2": x["g1"]})
+    out.append({**x, "g2": x["g1"]})
+    return out
+
+
+def _impl_range(inp):
+    from soundevent.evaluation import compute_affinity
+    g1, g2 = gen_geom.to_data(inp["g1"]), gen_geom.to_data(inp["g2"])
+    tb, fb = _f(inp["tb"]), _f(inp["fb"])
+    return {"val": [rat(float(compute_affinity(g1, g2, time_buffer=tb, freq_buffer=fb))),
+                    rat(float(compute_affinity(g2, g1, time_buffer=tb, freq_buffer=fb)))]}
+
+
+def _holds_range(ctx, inp, io):
+    """the clauses that need nothing but the two outputs: both in [0, 1] (`judgeObs`, theorem C06_model_holds), and
+    equal up to the last bits (a larger difference is an asymmetry; the last bits are known finding C06-2)"""
+    if "raise" in io:
+        return "compute_affinity raised " + str(io["raise"])
+    a12, a21 = io["val"]
+    v = ctx.model("judge", {"a12": a12, "a21": a21, "same": False, "extent_pos": False, "disjoint": False})
+    if not v["range"]:
+        x = frac(a12) if not 0 <= frac(a12) <= 1 else frac(a21)
+        return f"range: compute_affinity = {float(x)!r} is outside [0, 1]"
+    if abs(frac(a12) - frac(a21)) > ULP_BOUND:
+        return f"asymmetry: compute_affinity(a, b) = {float(frac(a12))!r} but (b, a) = {float(frac(a21))!r}"
+    return None
+
+
+# the range clause alone on many near-identical pairs (no measurement of shapes: cheap)
+OPS["affinity_range"] = Op("affinity_range", _impl_range, holds=_holds_range, compare=lambda inp, io, mo: None,
+                           nontrivial=lambda inp, out: "val" in out and frac(out["val"][0]) > 0, mode="exact", no_model=True)
+
+OPS["affinity_history"] = history.history_op("affinity_history", _BASE, _h_build, _h_call, _h_canon,
+                                             snapshot=_h_snapshot, modify=_h_modify)
+
+_SIG = {}
+
+
+def _extracted_sig():
+    """the signature of the imported compute_affinity, by introspection (None: not introspectable)"""
+    if "sig" not in _SIG:
+        try:
+            from soundevent.evaluation import compute_affinity
+            _SIG["sig"] = P.extract_signature(compute_affinity)
+        except Exception:  # noqa: BLE001
+            _SIG["sig"] = None
+    return _SIG["sig"]
+
+
+PINNED_DEFAULTS = {"time_buffer": {"num": rat(0.01)}, "freq_buffer": {"num": "100"}}
+
+
+def _doc_sig():
+    """the documented interface (the four parameters in the documented order) with the defaults the imported function
+    declares today: what a call is resolved against.  (That the imported signature *is* of this form is the
+    regenerated obligation `signature`; a function that declares the buffers in another order still has its
+    positional calls judged by the documented order.)"""
+    ext = _extracted_sig() or []
+    d = {n: v for n, v in ext if v is not None}
+    return [["geometry1", None], ["geometry2", None]] + [[n, d.get(n) or PINNED_DEFAULTS[n]] for n in ("time_buffer", "freq_buffer")]
+
+
+def _resolve(inp):
+    """the base input (geometries and buffers) the call of `inp` binds to, by the model's `bindCall`"""
+    k = "resolve:" + jkey(inp)
+    if k not in _CACHE:
+        def arg(slot):
+            return {"geom": inp[slot]} if slot in ("g1", "g2") else {"num": inp[slot]}
+        v = _model("bind", {"sig": _doc_sig(), "pos": [arg(s_) for s_ in inp["pos"]],
+                            "kw": [[P.PARAM[s_], arg(s_)] for s_ in inp["kw"]]})
+        _CACHE[k] = None if "raise" in v else {**v["val"], "mode": inp.get("mode", "free")}
+    return _CACHE[k]
+
+
+def _impl_call(inp):
+    from soundevent.evaluation import compute_affinity
+    b1, b2 = inp.get("build", ["validate", "validate"])
+    n1, n2 = inp.get("num", ["float", "float"])
+    g1, g2 = P.build(inp["g1"], b1), P.build(inp["g2"], b2)
+    vals = {"g1": g1, "g2": g2, "tb": P.num(inp["tb"], n1), "fb": P.num(inp["fb"], n2)}
+    a12 = P.call(compute_affinity, vals, inp["pos"], inp["kw"])
+    a21 = P.call(compute_affinity, {**vals, "g1": g2, "g2": g1}, inp["pos"], inp["kw"])
+    out = {"val": [rat(float(a12)), rat(float(a21))]}
+    if not isinstance(a12, (int, float)) or isinstance(a12, bool):
+        out["type"] = type(a12).__name__
+    for g, gj in ((g1, inp["g1"]), (g2, inp["g2"])):
+        if not _same_content(g, gj):
+            out["mutated"] = gen_geom.from_data(g)
+    return out
+
+
+def _call_to_model(inp):
+    r = _resolve(inp)
+    return _to_model(r) if r is not None else {"g1": inp["g1"], "g2": inp["g2"], "tb": "-1", "fb": "-1"}
+
+
+def _call_compare(inp, io, mo):
+    r = _resolve(inp)
+    if r is None:
+        return None if io.get("raise") == "type" else "the model's binding raises TypeError, the implementation does not"
+    return _compare_pair(r, io, mo)
+
+
+def _call_holds(ctx, inp, io):
+    r = _resolve(inp)
+    if r is None:
+        return None
+    if "raise" in io:
+        return (f"compute_affinity raised {io['raise']} when called with positional {inp['pos']} / keyword {inp['kw']} "
+                f"arguments built as {inp.get('build')} / numbers as {inp.get('num')}")
+    msg = _holds_pair(ctx, r, io)
+    if msg:
+        return (f"call with positional {inp['pos']} and keyword {inp['kw']} arguments (geometries built as {inp.get('build')}, "
+                f"buffers passed as {inp.get('num')}), i.e. time_buffer={float(frac(r['tb']))!r} freq_buffer={float(frac(r['fb']))!r}: " + msg)
+    return None
+
+
+OPS["affinity_call"] = Op("affinity_call", _impl_call, to_model=_call_to_model, compare=_call_compare, holds=_call_holds,
+                          nontrivial=lambda inp, out: _resolve(inp) is not None and _nontrivial(_resolve(inp), out),
+                          mode="tolerance", model_op="affinity_pair")
+
+
 def _run_pairs(ctx, cases):
     """route every pair to the operation whose comparison mode applies to it"""
     closed, geos = [], []
@@ -725,6 +941,21 @@ def _tables(ctx):
                        "    SE.Affinity.bufferTypes.contains tag = true ∨\n"
                        f"    ([{items}] : List String).contains tag = SE.Affinity.timeTypes.contains tag := by\n  decide\n",
                        {"op": "affinity_closed", "extracted": tabs["TIME_GEOMETRY_TYPES"]})
+
+
+def _signature_tie(ctx):
+    """Tie 1: the signature of the imported compute_affinity, by introspection, is one the documented interface admits
+    (`WellFormedSig`: geometry1, geometry2, time_buffer, freq_buffer in this order, the buffers optional with
+    non-negative numeric defaults).  With C06_bind_wellformed every call style binds to the same call."""
+    ext = _extracted_sig()
+    if ext is None:
+        ctx.pre_failed.append("signature")
+        ctx.fail("obligation", "signature", detail="the signature of compute_affinity cannot be introspected",
+                 extra={"op": "affinity_call"})
+        return
+    ctx.obligation("signature",
+                   f"theorem sig_compute_affinity : SE.Affinity.WellFormedSig {P.lean_sig(ext)} = true := by\n  decide +kernel\n",
+                   {"op": "affinity_call", "extracted": ext})
 
 
 # ---------------------------------------------------------------- tie 1b: symbolic traces
@@ -1146,6 +1377,282 @@ def _shift_cases(rng, reps):
                 yield {"g1": g1, "g2": g2, "tb": tb, "fb": fb, "d": d, "mode": "grid"}
 
 
+# ---------------------------------------------------------------- follow-up 3: generators
+def _near_identical_cases(rng, reps, types=None, kinds=None):
+    """a geometry against a copy whose coordinates (all, or some of them) moved by about one unit in the last place
+    (one ulp, 1e-12 relative, the unit round trips x*1000/1000, x/1000*1000, x/3*3, ...): the ratio of GEOS's areas is
+    then 1 +- a few ulp, and the clause "in [0, 1], never more than 1" is decided by the final clamp alone (seeded
+    C06-9).  Polygons, multipolygons, boxes, buffered lines / points (area branch) and intervals / time stamps (time
+    branch), on arbitrary binary64 coordinates and on coordinates with three / one decimals"""
+    types = types or ["Polygon", "MultiPolygon", "BoundingBox", "LineString", "MultiLineString", "Point", "MultiPoint",
+                      "TimeInterval", "TimeStamp"]
+    for _ in range(reps):
+        for ty in types:
+            g = _free_geom(rng, ty)
+            if g["type"] != ty:
+                continue
+            if rng.random() < 0.6:
+                gd = P.decimal_round(g)
+                if _is_simple(gd) and _wf(gd):
+                    g = gd
+            for kind in (kinds or P.PERTURB):
+                h = P.perturb(g, kind, rng)
+                if h == g or not _is_simple(h) or not _wf(h):
+                    continue
+                tb, fb = _bufs(rng, g, h, "free")
+                yield {"g1": g, "g2": h, "tb": tb, "fb": fb, "mode": "free"}
+                if ty == "BoundingBox" and kind in ("ulp", "rt1000"):
+                    c = g["coordinates"]
+                    ring = [[c[0], c[1]], [c[2], c[1]], [c[2], c[3]], [c[0], c[3]], [c[0], c[1]]]
+                    yield {"g1": {"type": "Polygon", "coordinates": [ring]}, "g2": h, "tb": tb, "fb": fb, "mode": "free"}
+
+
+GEOS_NEAR = ["Polygon", "MultiPolygon", "LineString", "MultiLineString", "Point", "MultiPoint"]
+NEAR_KINDS = ["ulp", "ulp_some", "rt1000", "rt3", "rt_mixed"]
+
+
+def _wf(gj):
+    """the part of validation a perturbation / rounding could break: ordered interval / box, distinct line ends"""
+    ty, c = gj["type"], gj["coordinates"]
+    if ty == "TimeInterval":
+        return frac(c[0]) <= frac(c[1])
+    if ty == "BoundingBox":
+        return frac(c[0]) <= frac(c[2]) and frac(c[1]) <= frac(c[3]) and frac(c[3]) <= gen_geom.MAXF
+    if ty == "LineString":
+        return len({jkey(p) for p in c}) >= 2
+    if ty == "MultiLineString":
+        return all(len({jkey(p) for p in line}) >= 2 for line in c)
+    return True
+
+
+def _pow2(k):
+    return Fraction(2) ** k
+
+
+def _is_float(q):
+    return Fraction(float(q)) == q
+
+
+def _coords_are_floats(gj):
+    ok = [True]
+
+    def chk(c):
+        if isinstance(c, list):
+            for x in c:
+                chk(x)
+        elif not _is_float(frac(c)):
+            ok[0] = False
+    chk(gj["coordinates"])
+    return ok[0]
+
+
+def _time_formula_exact(case):
+    """every intermediate of the time-only computation (the buffer of a time stamp, both durations, overlap, union) is
+    a binary64 number, so that the implementation rounds once, in the final division"""
+    ext = []
+    tb = frac(case["tb"])
+    for g in (case["g1"], case["g2"]):
+        s_, e_ = _raw_time_bounds(g)
+        if g["type"] == "TimeStamp":
+            if not (_is_float(s_ - tb) and _is_float(e_ + tb)):
+                return False
+            s_, e_ = max(s_ - tb, Fraction(0)), e_ + tb
+        ext.append((s_, e_))
+    (s1, e1), (s2, e2) = ext
+    inter = max(Fraction(0), min(e1, e2) - max(s1, s2))
+    steps = [min(e1, e2) - max(s1, s2), e1 - s1, e2 - s2, (e1 - s1) + (e2 - s2), (e1 - s1) + (e2 - s2) - inter]
+    return all(_is_float(x) for x in steps)
+
+
+def _magnitude_boundary_cases():
+    """tolerance-sized offsets around every comparison the property pins (extents touching / overlapping / missing each
+    other, the clamp of a buffered time stamp at 0, the zero-union guard, extents of one unit in the last place), at
+    small and at large magnitudes.  Every coordinate is a binary64 number; where every intermediate of the time formula
+    is one as well the pair is compared round-once (`grid`), otherwise with the tolerance and, bit for bit, against the
+    binary64 evaluation of the model (`affinity_bits`)"""
+    def emit(g1, g2, tb, fb, area=False):
+        c = {"g1": g1, "g2": g2, "tb": rat(Fraction(tb)), "fb": rat(Fraction(fb)), "mode": "grid"}
+        if not (_coords_are_floats(g1) and _coords_are_floats(g2)):
+            return None
+        if area or not _time_formula_exact(c):
+            c["mode"] = "free"
+        return c
+    out = []
+    for e in (0, 12, 17, 20):                        # T = 1, 4096, 131072 (a day and a half), 1048576 seconds
+        T = _pow2(e)
+        u = _pow2(max(e, 2) - 51)                    # one unit in the last place of the largest endpoint T + 3
+        epss = sorted({u, 64 * u, max(u, _pow2(-30)), max(u, _pow2(-20))})
+        for eps in epss:
+            for d in (eps, -eps, Fraction(0)):
+                out.append(emit(_interval(T, T + 1), _interval(T + 1 - d, T + 2), 0, 0))
+                out.append(emit(_stamp(T), _interval(T + Fraction(1, 4) - d, T + 1), Fraction(1, 4), 1))
+                out.append(emit(_stamp(T), _stamp(T + Fraction(1, 2) - d), Fraction(1, 4), 1))
+                out.append(emit(_box(T, 1, T + 1, 2), _interval(T + 1 - d, T + 2), 0, 0))
+                # area branch through GEOS at large time and frequency magnitudes (measured, tolerance)
+                for F in (Fraction(1024), Fraction(2 ** 20), Fraction(gen_geom.MAXF - 2048)):
+                    out.append(emit(_box(T, F, T + 1, F + 1024), _box(T + 1 - d, F + 512, T + 2, F + 2048), 0, 0, area=True))
+            # extents of eps: self = 1, a half-overlapping neighbour, the zero-union guard next to it
+            out.append(emit(_interval(T, T + eps), _interval(T, T + eps), 0, 0))
+            out.append(emit(_interval(T, T + 2 * eps), _interval(T + eps, T + 3 * eps), 0, 0))
+            out.append(emit(_box(T, 1, T + eps, 2), _box(T, 1, T + eps, 2), 0, 0, area=True))
+            out.append(emit(_interval(T, T), _interval(T, T + eps), 0, 0))
+        out.append(emit(_interval(T, T), _interval(T, T), 0, 0))
+    # the clamp of a buffered time stamp at time 0: t - tb just below, at, just above 0
+    for tb in (Fraction(1, 4), Fraction(1), Fraction(4)):
+        for eps in (2 * tb * _pow2(-52), _pow2(-40), _pow2(-20)):
+            for d in (eps, -eps, Fraction(0)):
+                t = tb + d
+                out.append(emit(_stamp(t), _interval(0, 2 * tb), tb, 1))
+                out.append(emit(_stamp(t), _stamp(t), tb, 1))
+                out.append(emit(_stamp(t), {"type": "Point", "coordinates": [rat(t), "2"]}, tb, 1))
+    seen = set()
+    for c in out:
+        if c is not None and jkey(c) not in seen:
+            seen.add(jkey(c))
+            yield c
+
+
+def _ring_regular(n, ct, cf, rt, rf, k):
+    """a star-shaped (hence simple) ring with n vertices on the grid 2^-k"""
+    import math
+    q = 1 << k
+    pts = []
+    for i in range(n):
+        a = 2 * math.pi * i / n
+        r = 1.0 if i % 2 == 0 else 0.8
+        pts.append([rat(Fraction(round((ct + rt * r * math.cos(a)) * q), q)), rat(Fraction(round((cf + rf * r * math.sin(a)) * q), q))])
+    pts.append(list(pts[0]))
+    return pts
+
+
+def _size_cases(rng, sizes, heavy=True):
+    """geometries with many vertices / parts, around the sizes at which an implementation could switch strategy
+    (> 16, > 256, >= 1024): against an interval (time branch), a box and themselves (area branch).  Above 1000 vertices
+    the line is smooth (GEOS's mitre buffer of a jagged line takes seconds) and the multipoint only runs when `heavy`"""
+    import math
+    k = 12
+    q = 1 << k
+    for n in sizes:
+        big_n = n > 1000
+        poly = {"type": "Polygon", "coordinates": [_ring_regular(n, 8, 8, 4, 4, k)]}
+        ts = sorted(rng.sample(range(4 * q, 12 * q), n))
+        if big_n:
+            fs = [round((8 + 3 * math.sin(6 * math.pi * i / n)) * q) for i in range(n)]
+        else:
+            fs = [rng.randint(4 * q, 12 * q) for _ in range(n)]
+        line = {"type": "LineString", "coordinates": [[rat(Fraction(t, q)), rat(Fraction(f, q))] for t, f in zip(ts, fs)]}
+        mpt = {"type": "MultiPoint", "coordinates": [[rat(Fraction(rng.randint(4 * q, 12 * q), q)), rat(Fraction(rng.randint(4 * q, 12 * q), q))]
+                                                     for _ in range(n)]}
+        m = max(2, n // 16)
+        w = Fraction(8, m)
+        mpoly = {"type": "MultiPolygon", "coordinates": [[_ring_regular(16, float(4 + w * i + w / 2), 8, float(w * Fraction(2, 5)), 3, k)]
+                                                        for i in range(m)]}
+        mline = {"type": "MultiLineString", "coordinates": [[[rat(4 + w * i), rat(Fraction(rng.randint(4 * q, 12 * q), q))],
+                                                             [rat(4 + w * i + w / 2), rat(Fraction(rng.randint(4 * q, 12 * q), q))]]
+                                                            for i in range(m)]}
+        big = [poly, line, mpoly, mline] + ([mpt] if heavy or not big_n else [])
+        big = [g for g in big if _is_simple(g)]
+        partners = [_interval(6, 9), _box(6, 6, 9, 9), _stamp(Fraction(15, 2))]
+        for g in big:
+            for h in partners + [g]:
+                tb, fb = rng.choice([("1/4", "1/2"), ("1/2", "1/4"), ("1", "2")])
+                yield {"g1": g, "g2": h, "tb": tb, "fb": fb, "mode": "grid"}
+        yield {"g1": poly, "g2": mpoly, "tb": "1/4", "fb": "1/2", "mode": "grid"}
+        if heavy or not big_n:
+            yield {"g1": line, "g2": mpt, "tb": "1/4", "fb": "1/2", "mode": "grid"}
+
+
+# fixed samples, one per type, with the features a sibling branch could mishandle: a line with a bend at its latest
+# time (the buffered extent then depends on the frequency buffer: seeded C06-8), a polygon and a multipolygon part
+# with a hole, singleton multi-geometries
+_SAMPLES = {
+    "TimeStamp": [_stamp(Fraction(5, 4))],
+    "TimeInterval": [_interval(1, Fraction(9, 4))],
+    "Point": [{"type": "Point", "coordinates": ["3/2", "2"]}],
+    "LineString": [{"type": "LineString", "coordinates": [["1", "1"], ["2", "2"], ["3/2", "3"]]},
+                   {"type": "LineString", "coordinates": [["3/4", "3"], ["7/4", "5/2"]]}],
+    "Polygon": [{"type": "Polygon", "coordinates": [[["1/2", "1/2"], ["3", "1/2"], ["3", "3"], ["1/2", "3"], ["1/2", "1/2"]],
+                                                    [["1", "1"], ["1", "2"], ["2", "2"], ["2", "1"], ["1", "1"]]]}],
+    "BoundingBox": [_box(1, 1, 2, Fraction(5, 2))],
+    "MultiPoint": [{"type": "MultiPoint", "coordinates": [["3/2", "2"]]},
+                   {"type": "MultiPoint", "coordinates": [["1", "1"], ["2", "5/2"], ["5/4", "3"]]}],
+    "MultiLineString": [{"type": "MultiLineString", "coordinates": [[["1", "1"], ["2", "2"], ["3/2", "3"]]]},
+                        {"type": "MultiLineString", "coordinates": [[["1", "1"], ["2", "3/2"]], [["5/4", "3"], ["9/4", "7/2"], ["2", "4"]]]}],
+    "MultiPolygon": [{"type": "MultiPolygon", "coordinates": [
+        [[["1/2", "1/2"], ["3/2", "1/2"], ["3/2", "3"], ["1/2", "3"], ["1/2", "1/2"]]],
+        [[["2", "1/2"], ["7/2", "1/2"], ["7/2", "3"], ["2", "3"], ["2", "1/2"]],
+         [["5/2", "1"], ["5/2", "2"], ["3", "2"], ["3", "1"], ["5/2", "1"]]]]}],
+}
+
+
+def _option_product_cases(rng, thorough):
+    """the product of the two options with every ordered type pair (and the sibling samples of every type): every
+    time buffer with every frequency buffer, small against large, zero where the quantifier allows it"""
+    bufs = ["1/8", "2"] if not thorough else ["1/8", "1", "4"]
+    for t1 in gen_geom.TYPES:
+        for t2 in gen_geom.TYPES:
+            low = t1 in LOW_DIM or t2 in LOW_DIM
+            combos = [(a, b) for a in bufs for b in bufs] + ([] if low else [("0", "2"), ("2", "0")])
+            for g1 in _SAMPLES[t1]:
+                for g2 in _SAMPLES[t2]:
+                    for tb, fb in (combos if thorough else rng.sample(combos, min(3, len(combos)))):
+                        yield {"g1": g1, "g2": g2, "tb": tb, "fb": fb, "mode": "grid"}
+
+
+def _call_cases(rng, reps):
+    """every ordered type pair through the other ways of calling compute_affinity (positional, mixed, all keywords,
+    omitted buffers) x ways of building the geometries x kinds of numbers for the buffers; pairwise: every style
+    with every construction path and every number kind at least once"""
+    styles = list(P.STYLES)
+    pairs = [(t1, t2) for t1 in gen_geom.TYPES for t2 in gen_geom.TYPES]
+    n = 0
+    for _ in range(reps):
+        for t1, t2 in pairs:
+            style = styles[n % len(styles)]
+            pos, kw = P.STYLES[style]
+            defaults = "tb" not in pos + kw or "fb" not in pos + kw
+            integer = (not defaults) and n % 5 == 0
+            if integer:
+                g1, g2 = _valid(rng, t1, tmax=6, fmax=6, k=0), _valid(rng, t2, tmax=6, fmax=6, k=0)
+                tb, fb = rng.choice([("1", "2"), ("2", "1"), ("1", "1"), ("4", "2")])
+                mode = "grid"
+            elif defaults:
+                g1, g2 = _free_geom(rng, t1), _free_geom(rng, t2)
+                tb, fb = rng.choice([(rat(0.01), rat(100.0)), (rat(0.05), rat(33.3)), ("1/8", "1/2"), (rat(1.5), rat(250.0))])
+                mode = "free"       # an omitted buffer is the declared default (0.01 s is not on the grid)
+            else:
+                g1, g2 = _grid_geom(rng, t1), _grid_geom(rng, t2)
+                tb, fb = _bufs(rng, g1, g2, "grid")
+                if frac(tb) == 0 or frac(fb) == 0:
+                    tb, fb = "1/4", "1/2"
+                mode = "grid"
+            builds = []
+            for j, g in enumerate((g1, g2)):
+                b = P.BUILDS[(n * 7 + j * 5 + (n // len(styles))) % len(P.BUILDS)]
+                if integer and (n // 5 + j) % 2 == 0:
+                    b = "ctor_int"
+                builds.append(b if P.build_ok(g, b) else "ctor")
+            nums = []
+            for j, x in enumerate((tb, fb)):
+                kd = P.NUMS[(n * 3 + j + (n // len(styles))) % len(P.NUMS)]
+                nums.append(kd if P.num_ok(x, kd) and (kd != "np32" or mode == "grid") else "float")
+            yield {"g1": g1, "g2": g2, "tb": tb, "fb": fb, "mode": mode, "style": style, "pos": list(pos), "kw": list(kw),
+                   "build": builds, "num": nums}
+            n += 1
+
+
+def _history_cases(ctx, n):
+    rng = ctx.rng
+    base = list(_pair_cases(rng, 1, "grid")) + list(_pair_cases(rng, 1, "grid"))
+    base += [c for c in _pair_cases(rng, 1, "free")][::3]
+    rng.shuffle(base)
+    hs = history.sequences(rng, base, n, variants=_h_variants, reuse_hows=H_REUSE, length=(3, 5))
+    for h in hs:
+        for st in h["seq"]:
+            ctx.tally("history:" + (st.get("reuse") or "fresh"))
+    return hs
+
+
 # ---------------------------------------------------------------- run / search
 def _correspondence(ctx):
     _run_pairs(ctx, list(_exhaustive_closed(ctx.thorough())))
@@ -1164,7 +1671,8 @@ def _free_mode(ctx):
     _run_pairs(ctx, pairs)
     _run_pairs(ctx, selfs)
     # the same observations against the binary64 evaluation of the model, bit for bit
-    ctx.run_cases(OPS["affinity_bits"], pairs + selfs[:ctx.budget(240, 2400)] + list(_tiny_overlap_cases()))
+    ctx.run_cases(OPS["affinity_bits"], pairs + selfs[:ctx.budget(240, 2400)] + list(_tiny_overlap_cases())
+                  + [c for c in _magnitude_boundary_cases() if c["g1"]["type"] != "Point" and c["g2"]["type"] != "Point"])
 
 
 def _rnd64_contract(ctx):
@@ -1192,6 +1700,36 @@ def _corpus(ctx):
     ctx.run_corpus(OPS)
 
 
+def _near_identical(ctx):
+    _run_pairs(ctx, list(_near_identical_cases(ctx.rng, ctx.budget(4, 40))))
+    # ... and the range clause alone on many more pairs that go through GEOS (a ratio above 1 shows on a few per cent)
+    ctx.run_cases(OPS["affinity_range"], list(_near_identical_cases(ctx.rng, ctx.budget(35, 500), GEOS_NEAR, NEAR_KINDS)))
+
+
+def _boundaries(ctx):
+    _run_pairs(ctx, list(_magnitude_boundary_cases()))
+    _run_pairs(ctx, list(_size_cases(ctx.rng, (17, 257, 1024, 1025) if ctx.thorough() else (17, 257, 1025), heavy=ctx.thorough())))
+    ctx.exhaustive["option product"] = ("every ordered type pair (fixed samples per type incl. a line with a bend at its latest time, "
+                                        "holes, singleton multi-geometries) x time buffer x frequency buffer in {1/8, 2} (quick: 3 of the "
+                                        "combinations per pair; thorough: {1/8, 1, 4}^2 and a zero buffer on either axis)")
+    _run_pairs(ctx, list(_option_product_cases(ctx.rng, ctx.thorough())))
+
+
+def _calls(ctx):
+    cases = list(_call_cases(ctx.rng, ctx.budget(3, 12)))
+    for c in cases:
+        ctx.tally("call style:" + c["style"])
+        for b in c["build"]:
+            ctx.tally("built:" + b)
+        for k in c["num"]:
+            ctx.tally("buffer passed as:" + k)
+    ctx.run_cases(OPS["affinity_call"], cases)
+
+
+def _histories(ctx):
+    ctx.run_cases(OPS["affinity_history"], _history_cases(ctx, ctx.budget(120, 1200)))
+
+
 def _bounds_contract(ctx):
     """contract BoundsExact (hypothesis of C06_time_only_closed_form, and what the route traces put in place of
     `shp.bounds` for a TimeStamp / TimeInterval / BoundingBox): `compute_bounds(g)` is the coordinate-wise
@@ -1215,18 +1753,24 @@ def run(ctx):
     _CTX = ctx
     _CACHE.clear()
     _IMPL_SEEN.clear()
+    _SIG.clear()
     ctx.stage("tables", _tables, ctx)
+    ctx.stage("signature", _signature_tie, ctx)
     ctx.stage("symbolic-ties", _symbolic_ties, ctx)
     ctx.stage("symbolic-ties (rounding arithmetic)", _rounded_ties, ctx)
     ctx.stage("symbolic-ties (closed-form buffers)", _buffer_ties, ctx)
     ctx.stage("symbolic-ties (routes of all 81 type pairs)", _route_ties, ctx)
-    ctx.stage("discharge", ctx.discharge, ["SoundeventModel.Affinity", "SoundeventModel.Ops.C06", "SoundeventModel.Tactics"])
+    ctx.stage("discharge", ctx.discharge, ["SoundeventModel.Affinity", "SoundeventModel.AffinityCall", "SoundeventModel.Ops.C06", "SoundeventModel.Tactics"])
     ctx.stage("corpus", _corpus, ctx)
     ctx.stage("bounds contract", _bounds_contract, ctx)
     ctx.stage("correspondence on grids", _correspondence, ctx)
     ctx.stage("rnd64 contract", _rnd64_contract, ctx)
     ctx.stage("free mode", _free_mode, ctx)
     ctx.stage("shift", _shifts, ctx)
+    ctx.stage("near-identical pairs", _near_identical, ctx)
+    ctx.stage("boundaries, sizes, option product", _boundaries, ctx)
+    ctx.stage("call styles and construction paths", _calls, ctx)
+    ctx.stage("histories", _histories, ctx)
 
 
 def search(ctx, failures):
@@ -1239,3 +1783,8 @@ def search(ctx, failures):
     ctx.stage("search: free pairs", lambda: _run_pairs(ctx, list(_pair_cases(ctx.rng, 4, "free"))))
     ctx.stage("search: free self pairs", lambda: _run_pairs(ctx, list(_self_cases(ctx.rng, 60, "free"))))
     ctx.stage("search: shifts", lambda: ctx.run_cases(OPS["shift"], list(_shift_cases(ctx.rng, 3))))
+    ctx.stage("search: near-identical pairs", lambda: ctx.run_cases(
+        OPS["affinity_range"], list(_near_identical_cases(ctx.rng, 150, GEOS_NEAR, NEAR_KINDS))))
+    ctx.stage("search: boundaries at magnitudes", lambda: _run_pairs(ctx, list(_magnitude_boundary_cases())))
+    ctx.stage("search: call styles", lambda: ctx.run_cases(OPS["affinity_call"], list(_call_cases(ctx.rng, 3))))
+    ctx.stage("search: histories", lambda: ctx.run_cases(OPS["affinity_history"], _history_cases(ctx, 120)))
